@@ -2079,8 +2079,26 @@ class Circuit(Unitary, StateVectorMap, Collection[Operation]):
             if not gate_moved:
                 idle_cycles.append(new_cycle_index)
 
-        for i, cycle_index in enumerate(sorted(idle_cycles)):
+        # A cycle of the middle portion that held only moved gates is
+        # now empty and must go as well
+        emptied_cycles = [
+            cycle_index
+            for cycle_index in range(region.min_cycle, region.max_min_cycle)
+            if self._is_cycle_idle(cycle_index)
+        ]
+
+        for i, cycle_index in enumerate(sorted(idle_cycles + emptied_cycles)):
             self.pop_cycle(cycle_index - i)
+
+        if len(emptied_cycles) != 0:
+            num_before = lambda c: len([e for e in emptied_cycles if e < c])
+            region = CircuitRegion({
+                qudit_index: (
+                    interval.lower - num_before(interval.lower),
+                    interval.upper - num_before(interval.upper),
+                )
+                for qudit_index, interval in region.items()
+            })
 
         region = region.shift_left(len(idle_cycles))
 
